@@ -53,7 +53,7 @@ SetOf(s) == {s[i] : i \in 1..Len(s)}
 Orders(S) == UNION {{s \in [1..n -> S] : \A i, j \in 1..n : i # j => s[i] # s[j]} : n \in 1..Cardinality(S)}
 
 \* named values for the configuration files
-ListsQuick == {<<"P", "C">>, <<"P">>}   \* the first listed method is one the peer cannot complete
+ListsQuick == {<<"P", "C">>, <<"P">>, <<"K">>}   \* the first listed method is one the peer cannot complete; K is usable by E (it is offered) but not runnable by the peer
 ListsTwo   == Orders({"C", "P"})
 ListsAll   == Orders({"C", "P", "K"})
 \* thorough tier: every order of every subset of {C, P}, and lists with a third method
@@ -241,11 +241,15 @@ PeerSelect(d) ==
 \* statement demands that a method E ITSELF LISTED ran); otherwise the
 \* statement only demands that E reports what really ran, so running it is
 \* tolerated here.  Everything else ends in Abort.
+\* A multi-bit answer ("several") names no single method: E may refuse it (Abort) or
+\* resolve it to one of the methods - the statement then only demands what it demands
+\* of any run: under REQUIRED the method E ran is one E itself offered.
 ClientRun ==
   /\ phase = "c_run"
-  /\ sel \in Runnable
-  /\ sel \in offered \/ cfg.auth # "REQUIRED" \/ "RunsUnoffered" \in Bug
-  /\ ran' = sel
+  /\ \E m \in Runnable :
+       /\ sel = m \/ sel = "several"
+       /\ m \in offered \/ cfg.auth # "REQUIRED" \/ "RunsUnoffered" \in Bug
+       /\ ran' = m
   /\ phase' = "key"
   /\ UNCHANGED <<cfg, devs, denied, ansAuth, pAuth, pEnc, keyMat, cipherOK, offered, sel, keyE,
                  postAuth, postDenied, policyAuth, encClaim, outcome>>
